@@ -31,19 +31,34 @@ theorem empty_inv : Inv P (empty : Window α) := ⟨rfl, rfl, Or.inr ⟨rfl, rfl
 
 theorem empty_toList : toList (empty : Window α) = [] := rfl
 
-theorem fromParts_ok (slice : List α) (index : Nat) (h1 : slice.length < P) (h2 : index < slice.length) :
+theorem fromParts_ok (slice : List α) (index : Nat) (h1 : slice.length < P)
+    (h2 : index < slice.length ∨ (slice = [] ∧ index = 0)) :
     ∃ w, fromParts P slice index = .ok w ∧ Inv P w ∧
       toList w = slice.drop index ++ slice.take index ∧ w.buf = slice ∧ w.index = index := by
+  have h2' : slice.length > index ∨ (slice.isEmpty = true ∧ index = 0) := by
+    rcases h2 with h | ⟨h, h'⟩
+    · exact Or.inl h
+    · exact Or.inr ⟨by simp [h], h'⟩
   refine ⟨{ buf := slice, index := index, size := slice.length, s_1 := satSub slice.length 1 },
-    by simp [fromParts, h1, h2], ⟨rfl, by simp [satSub], Or.inl h2, ?_⟩, rfl, rfl, rfl⟩
-  simp; omega
+    by simp only [fromParts, h1, not_true_eq_false, ↓reduceIte, h2'], ⟨rfl, by simp [satSub], ?_, ?_⟩, rfl, rfl, rfl⟩
+  · rcases h2 with h | ⟨h, h'⟩
+    · exact Or.inl h
+    · exact Or.inr ⟨by simp [h], h'⟩
+  · simp; omega
 
-theorem fromParts_err (slice : List α) (index : Nat) (h : ¬ (slice.length < P ∧ index < slice.length)) :
+theorem fromParts_err (slice : List α) (index : Nat)
+    (h : ¬ (slice.length < P ∧ (index < slice.length ∨ (slice = [] ∧ index = 0)))) :
     fromParts P slice index = .error .assertFailed := by
   unfold fromParts
   by_cases h1 : slice.length < P
-  · have : ¬ index < slice.length := fun h2 => h ⟨h1, h2⟩
-    simp [h1, this]
+  · have : ¬ (slice.length > index ∨ (slice.isEmpty = true ∧ index = 0)) := by
+      intro h2
+      apply h
+      refine ⟨h1, ?_⟩
+      rcases h2 with h2 | ⟨h2, h3⟩
+      · exact Or.inl h2
+      · exact Or.inr ⟨by simpa [List.isEmpty_iff] using h2, h3⟩
+    simp only [h1, not_true_eq_false, ↓reduceIte, this, not_false_eq_true]
   · simp [h1]
 
 /-! ### push -/
@@ -441,40 +456,35 @@ theorem iterRevLast_spec {w : Window α} {it : Iter} {j : Nat} (h : Inv P w) (hi
 
 /-! ### export / rebuild / serde -/
 
-/-- rebuilding from the exported buffer and oldest-index gives back the very same window -/
-theorem fromParts_asSlice {w : Window α} (h : Inv P w) (hpos : 0 < w.size) :
+/-- rebuilding from the exported buffer and oldest-index gives back the very same window
+    (every capacity, including 0) -/
+theorem fromParts_asSlice {w : Window α} (h : Inv P w) (hP : 1 ≤ P) :
     fromParts P (asSlice w) w.index = .ok w := by
   obtain ⟨hs, hs1, hi, hle⟩ := h
   have h1 : w.buf.length < P := by omega
-  have h2 : w.buf.length > w.index := by omega
   cases w with
   | mk buf index size s_1 =>
-    simp only at hs hs1 h1 h2
-    simp [fromParts, asSlice, h1, h2, satSub, hs1, hs]
+    simp only at hs hs1 h1 hi
+    rcases hi with hi | ⟨hz, hi0⟩
+    · have h2 : buf.length > index := by omega
+      simp [fromParts, asSlice, h1, h2, satSub, hs1, hs]
+    · have hb : buf = [] := List.eq_nil_of_length_eq_zero (by omega)
+      subst hb hi0
+      simp [fromParts, asSlice, satSub, hs1, hs]
+      omega
 
-theorem deserialize_serialize {w : Window α} (h : Inv P w) :
+theorem deserialize_serialize {w : Window α} (h : Inv P w) (hP : 1 ≤ P) :
     deserialize P (serialize w) = .ok (.ok w) := by
-  by_cases hpos : 0 < w.size
-  · have hfp := fromParts_asSlice h hpos
-    obtain ⟨hs, hs1, hi, hle⟩ := h
-    have h1 : ¬ w.buf.length > P - 1 := by omega
-    have h2 : ¬ w.buf.length ≤ w.index := by omega
-    have h3 : w.buf.isEmpty = false := by
-      cases hb : w.buf with
-      | nil => simp [hb] at hs; omega
-      | cons a l => rfl
-    simp only [deserialize, serialize, h1, ↓reduceIte, h3, Bool.false_eq_true, false_and, h2]
-    exact congrArg _ hfp
-  · obtain ⟨hs, hs1, hi, hle⟩ := h
-    have hb : w.buf = [] := List.eq_nil_of_length_eq_zero (by omega)
-    cases w with
-    | mk buf index size s_1 =>
-      simp only at hs hs1 hi hb hpos
-      have : size = 0 := by omega
-      have : index = 0 := by omega
-      have : s_1 = 0 := by omega
-      subst_vars
-      simp [deserialize, serialize, empty]
+  have hfp := fromParts_asSlice h hP
+  obtain ⟨hs, hs1, hi, hle⟩ := h
+  have h1 : ¬ w.buf.length > P - 1 := by omega
+  have h2 : ¬ (w.buf.length ≤ w.index ∧ ¬ (w.buf.isEmpty = true ∧ w.index = 0)) := by
+    rcases hi with hi | ⟨hz, hi0⟩
+    · omega
+    · have hb : w.buf = [] := List.eq_nil_of_length_eq_zero (by omega)
+      simp [hb, hi0]
+  simp only [deserialize, serialize, h1, ↓reduceIte, h2]
+  exact congrArg _ hfp
 
 /-- what `deserialize` accepts, and that whatever it accepts is a consistent window -/
 theorem deserialize_accepts (buf : List α) (index : Nat) (hP : 1 ≤ P) :
@@ -484,19 +494,25 @@ theorem deserialize_accepts (buf : List α) (index : Nat) (hP : 1 ≤ P) :
         (buf.length > P - 1 ∨ (buf.length ≤ index ∧ ¬ (buf = [] ∧ index = 0)))) := by
   by_cases h1 : buf.length > P - 1
   · right; exact ⟨⟨.tooLong, by simp [deserialize, h1]⟩, Or.inl h1⟩
-  · by_cases h2 : buf = [] ∧ index = 0
+  · by_cases h3 : buf.length ≤ index ∧ ¬ (buf = [] ∧ index = 0)
+    · right
+      have h3' : buf.length ≤ index ∧ ¬ (buf.isEmpty = true ∧ index = 0) := by
+        simpa [List.isEmpty_iff] using h3
+      exact ⟨⟨.indexOut, by
+        simp [deserialize, h1, h3']
+        intro hb hi; exact h3.2 ⟨hb, hi⟩⟩, Or.inr h3⟩
     · left
-      obtain ⟨hb, hi⟩ := h2
-      subst hb hi
-      exact ⟨empty, by simp [deserialize], empty_inv, rfl⟩
-    · have h2' : ¬ (buf.isEmpty = true ∧ index = 0) := by
-        simpa [List.isEmpty_iff] using h2
-      by_cases h3 : buf.length ≤ index
-      · right
-        exact ⟨⟨.indexOut, by simp only [deserialize, h1, ↓reduceIte, h2', h3]⟩, Or.inr ⟨h3, h2⟩⟩
-      · left
-        obtain ⟨w, hw, hinv, htl, _, _⟩ := fromParts_ok (P := P) buf index (by omega) (by omega)
-        exact ⟨w, by simp only [deserialize, h1, ↓reduceIte, h2', h3, hw], hinv, htl⟩
+      have h3' : ¬ (buf.length ≤ index ∧ ¬ (buf.isEmpty = true ∧ index = 0)) := by
+        simpa [List.isEmpty_iff] using h3
+      have h4 : index < buf.length ∨ (buf = [] ∧ index = 0) := by
+        by_cases h5 : buf = [] ∧ index = 0
+        · exact Or.inr h5
+        · left
+          apply Nat.lt_of_not_le
+          intro h6
+          exact h3 ⟨h6, h5⟩
+      obtain ⟨w, hw, hinv, htl, _, _⟩ := fromParts_ok (P := P) buf index (by omega) h4
+      exact ⟨w, by simp only [deserialize, h1, ↓reduceIte, h3', hw], hinv, htl⟩
 
 /-! ### empty window: no observer yields an element -/
 
